@@ -232,6 +232,167 @@ def stream_shapes(strip_src):
     return out
 
 
+# =====================================================================================================
+# LOCK: the second translation (C19).  Same Rust text; the raw stream is `lraw` (Model/Stream.v): the scripted
+# writer plus the log of lock events.  The free functions write / write_all / write_fmt of strip.rs receive the
+# guard (`raw: &mut dyn Write`) and are the ones ALREADY translated over `writer` (g_write ..): the guard is the
+# view `lr_w` of the locked stream (vocabulary `place_writers`: a new value of the view goes back with set_lr_w).
+LRAW = ("struct", "LRaw")
+
+
+def ml_as_locked_write(em, e, rt, rty, env, k):
+    """`x.as_locked_write()`: take the lock NOW (lr_acquire on the place x), hand out the view lr_w of x, and register the
+    guard's destructor (lr_release on x) for the end of the enclosing temporary scope (vocabulary `drops`)"""
+    from rs2v.emit import NeedsBind
+    if e.args:
+        raise EmitError("as_locked_write takes no argument")
+    if rty != LRAW:
+        raise EmitError("as_locked_write on %r" % (rty,))
+    if em.pure_mode:
+        raise NeedsBind()
+    if em.place_root(e.recv) is None:
+        raise EmitError("as_locked_write on a value that is no place")
+
+    def drop(envx, kx):
+        return em.expr(e.recv, envx, lambda rt2, _ty, envy: em.write_place(e.recv, "(lr_release %s)" % rt2, envy, kx))
+
+    def after(env1):
+        def k1(rt1, _ty, env2):
+            em.drops.append(drop)
+            return k("(lr_w %s)" % rt1, WRITER, env2)
+        return em.expr(e.recv, env1, k1)
+    return em.write_place(e.recv, "(lr_acquire %s)" % rt, env, after)
+
+
+ml_as_locked_write.mutates = True
+
+
+def pw_as_locked_write(em, place, term, env, k):
+    """a new value of the guard's view goes back into the locked stream"""
+    return em.expr(place.recv, env, lambda rt, _ty, env1: em.write_place(place.recv, "(set_lr_w %s %s)" % (rt, term), env1, k))
+
+
+def guard_method(coq, ptys, ret, cfg=False):
+    """a method of the guard (`impl io::Write` of the inner writer), called on the ALREADY evaluated view: a callable, not
+    a shape dict, because call_shape would evaluate the receiver `x.as_locked_write()` a second time (= lock twice)"""
+    def m(em, e, rt, rty, env, k):
+        from rs2v.emit import NeedsBind
+        if rty != WRITER:
+            raise EmitError("%s on %r" % (e.name, rty,))
+        if len(e.args) != len(ptys):
+            raise EmitError("%s takes %d argument(s)" % (e.name, len(ptys)))
+        if em.pure_mode:
+            raise NeedsBind()
+        if em.place_root(e.recv) is None:
+            raise EmitError("%s on a writer that is no place" % e.name)
+
+        def k_args(ts, _tys, env1):
+            o, r = em.fresh("o"), em.fresh("r")
+            head = coq + ((" " + em.v["config_param"][0]) if cfg else "")
+            call = " ".join([head, rt] + ts)
+            return "let '(%s, %s) := %s in\n%s" % (o, r, call, em.write_place(e.recv, o, env1, lambda env2: k(r, ret, env2)))
+        return em.exprs(list(e.args), env, k_args)
+    m.mutates = True
+    return m
+
+
+GUARD_METHODS = {
+    ("LRaw", "as_locked_write"): ml_as_locked_write,
+    ("coq", "write"): guard_method("raw_write", [BYTES], res(USZ)),
+    ("coq", "write_vectored"): guard_method("raw_write_vectored", [("list", BYTES)], res(USZ), cfg=True),
+    ("coq", "flush"): guard_method("raw_flush", [], res(UNIT)),
+    ("coq", "write_all"): guard_method("raw_write_all", [BYTES], res(UNIT)),
+    ("coq", "write_fmt"): guard_method("raw_write_fmt", [("list", BYTES)], res(UNIT)),
+}
+
+STRUCT_LRAW = {"coq": "lraw", "var": "lr", "fields": {}, "check": False}
+LOCK_ALIASES = {n: LRAW for n in ("S", "Stdout", "Stderr", "StdoutLock", "StderrLock")}
+
+# strip.rs, <StripStream as io::Write>::{write, flush, write_all, write_fmt} over a locked raw stream
+VL_STRIP = {
+    "drops": True,
+    "place_writers": {"as_locked_write": pw_as_locked_write},
+    "result": {"err": "ekind"},
+    "type_alias": dict(LOCK_ALIASES),
+    "enums": {},
+    "structs": {
+        "LRaw": STRUCT_LRAW,
+        "StripBytes": {"coq": "sbytes", "var": "sb", "fields": {}, "check": False},
+        "StripStream": {"coq": "lsstream", "var": "ss", "fields": {
+            "raw": ("lss_raw", "set_lss_raw", LRAW),
+            "state": ("lss_state", "set_lss_state", SBYTES),
+        }},
+    },
+    "consts": {},
+    "param_types": {"args": ("list", BYTES)},
+    "fns": {},
+    "methods": dict(GUARD_METHODS),
+    "opaque": {},
+}
+
+ENUM_LINNER = {"coq": "lsinner", "var": "i", "variants": {},
+               "payload": {"PassThrough": ("LSIPass", [LRAW]), "Strip": ("LSIStrip", [SSTREAM])}}
+
+# auto.rs, <AutoStream as io::Write>::{write, write_vectored, flush, write_all, write_fmt} over a locked raw stream
+VL_AUTO = {
+    "config_param": ("cf", "acfg"),
+    "reserved": ["cf"],
+    "cfg_static": CFG,
+    "match_writeback": True,
+    "drops": True,
+    "place_writers": {"as_locked_write": pw_as_locked_write},
+    "result": {"err": "ekind"},
+    "type_alias": dict(LOCK_ALIASES, IoSlice=BYTES),
+    "enums": {"StreamInner": ENUM_LINNER},
+    "structs": {
+        "LRaw": STRUCT_LRAW,
+        "StripStream": {"coq": "lsstream", "var": "ss", "fields": {}, "check": False},
+        "AutoStream": {"coq": "lastream", "var": "a", "fields": {
+            "inner": ("las_inner", "set_las_inner", INNER),
+        }},
+    },
+    "consts": {},
+    "param_types": {"args": ("list", BYTES)},
+    "fns": {},
+    "methods": dict(GUARD_METHODS),
+    "opaque": {},
+}
+
+GL_SS_WRITE_VECTORED = """(* StripStream::write_vectored over a locked raw stream -- NOT translated (token-pinned, see above): it takes no lock
+   itself and delegates once to `self.write(buf)` *)
+Definition gl_ss_write_vectored (ss1 : lsstream) (bufs : (list (list N))) : option (lsstream * (N + ekind)) :=
+  gl_ss_write ss1 (first_nonempty bufs).
+"""
+
+
+def lock_translation(strip, auto):
+    shapes = {}
+    v = dict(gen_fn_stream.VOCAB)
+    v["opaque"] = {"StripStream::write_vectored": gen_fn_stream.PIN_WRITE_VECTORED}
+    translate(strip, v, STREAM_TARGETS, "", "", shapes)
+    # the free functions only: the methods are translated again below, over the locked stream
+    shapes = {k: dict(s) for k, s in shapes.items() if "::" not in k}
+    wr = {"trait": "Write"}
+    out = ["(* ---- LOCK (C19): the Write methods once more, over a raw stream that logs its lock events ---- *)"]
+    out.append(translate(strip, VL_STRIP, [
+        ("write", "StripStream", "gl_ss_write", wr),
+        ("flush", "StripStream", "gl_ss_flush", wr),
+        ("write_all", "StripStream", "gl_ss_write_all", wr),
+        ("write_fmt", "StripStream", "gl_ss_write_fmt", wr),
+    ], "", "", shapes))
+    out.append(GL_SS_WRITE_VECTORED)
+    shapes["StripStream::write_vectored"] = dict(shapes["StripStream::write"], coq="gl_ss_write_vectored",
+                                                 params=[("in", ("list", BYTES))])
+    out.append(translate(auto, VL_AUTO, [
+        ("write", "AutoStream", "gl_as_write", wr),
+        ("write_vectored", "AutoStream", "gl_as_write_vectored", wr),
+        ("flush", "AutoStream", "gl_as_flush", wr),
+        ("write_all", "AutoStream", "gl_as_write_all", wr),
+        ("write_fmt", "AutoStream", "gl_as_write_fmt", wr),
+    ], "", "", shapes))
+    return "\n".join(out)
+
+
 def register(generators, gm):
     def gen():
         try:
@@ -275,6 +436,7 @@ def register(generators, gm):
                 out.append(translate(auto, V_AUTO, [
                     ("lock", "AutoStream", "g_as_lock_" + which.lower(), {"target_arg": which, "key": "AutoStream::lock_" + which.lower()}),
                 ], "", "", shapes))
+            out.append(lock_translation(strip, auto))
             return "\n".join(out) + "\n"
         except TranslateError as e:
             raise gm.GenError(str(e))
